@@ -478,6 +478,51 @@ async def ble_handle_part(ctx) -> None:
         ctx.count("ble_handle_lookups_checked", len(asks))
 
 
+async def catch_up_part(ctx) -> None:
+    """Events while NOT connected (BLE accessories, sleepy devices) announce themselves through the state number in the
+    advertisement: every advertisement whose state number DIFFERS from the last one seen - it is a wrapping 16-bit counter,
+    65535 is followed by 1, a rebooted accessory starts again low - makes the pairing catch up (poll the subscribed
+    characteristics); the same number again does not. Observed at the hook the shared pairing code calls
+    (`_process_disconnected_events`, which the BLE pairing turns into the catch-up poll)."""
+    import dataclasses
+
+    from vf import sim_ble_acc
+
+    for k in range(ctx.pick(6, 60)):
+        if not ctx.mine(k):
+            continue
+        rng = ctx.grng("C12.catch-up", k)
+        w = sim_ble_acc.BleWorld(rng)
+        try:
+            p = w.pairing
+            calls = []
+            p._process_disconnected_events = lambda: calls.append(p.description.state_num if p.description else None)
+            start = rng.choice([5, 300, 65533, 65534])
+            seq, cur = [], start
+            for _ in range(rng.randint(4, 12)):
+                step = rng.choice(["same", "next", "next", "jump", "wrap", "restart"])
+                cur = {"same": cur, "next": cur + 1 if cur < 65535 else 1, "jump": min(65535, cur + rng.randint(2, 50)), "wrap": 1 if cur >= 65000 else cur + 1, "restart": rng.randint(1, 3)}[step]
+                seq.append(cur)
+            ctx.case("catch-up", k, sample={"transport": "ble", "advertised_state_numbers": [start] + seq}, kind="catch-up")
+            base = p.description
+            p._async_description_update(dataclasses.replace(base, state_num=start))
+            calls.clear()
+            last, want = start, 0
+            for n in seq:
+                before = len(calls)
+                p._async_description_update(dataclasses.replace(base, state_num=n))
+                triggered = len(calls) - before
+                expect = 1 if n != last else 0
+                if triggered != expect:
+                    ctx.violation("catch-up-poll-not-triggered" if expect else "catch-up-poll-for-unchanged-state", f"advertised state numbers {[start] + seq}: after {last} came {n}; catch-up triggered {triggered} time(s), expected {expect}", {"t": "catch-up", "k": k})
+                    return
+                last = n
+                want += expect
+            ctx.count("catch_up_triggers_checked", want)
+        finally:
+            await w.close()
+
+
 def run(ctx) -> None:
     from vf import vloop
 
@@ -501,6 +546,7 @@ def run(ctx) -> None:
 
         await sim_coap.c12_part(ctx)
         await ble_handle_part(ctx)
+        await catch_up_part(ctx)
 
     vloop.run(main())
 
@@ -513,6 +559,10 @@ def replay(ctx, d) -> None:
 
         ctx.shard, ctx.nshards = 0, 1
         vloop.run(sim_coap.c12_part(ctx))
+        return
+    if d.get("t") == "catch-up":
+        ctx.shard, ctx.nshards = 0, 1
+        vloop.run(catch_up_part(ctx))
         return
     if d.get("t") == "ble-handles":
         ctx.shard, ctx.nshards = 0, 1
